@@ -103,6 +103,21 @@ def _flow_job(kw):
             for name, sym in m.symbols.items():
                 if sym.kind == "from" and f"{sym.target}.{sym.attr}" == "eko.matchings.nf_default":
                     ev.overrides[f"{m.name}::{name}"] = S._NativeFn(lambda *a, **k: nf_default(ev, *a, **k))
+        # the same count written out by hand (searchsorted / digitize over the atlas walls) is the same determination
+        walls = runner.attrs["configs"].attrs["managers"]["threshold"].attrs.get("walls")
+        for fname, pos in (("numpy.searchsorted", (0, 1)), ("numpy.digitize", (1, 0))):
+            orig_f = ev.ext_calls.get(fname)
+            if orig_f is None:
+                continue
+
+            def wrapped(ev_, *a, _o=orig_f, _pos=pos, **k):
+                v = _o(ev_, *a, **k)
+                arr, val = a[_pos[0]], a[_pos[1]]
+                if arr is walls or (isinstance(arr, S.Arr) and walls is not None and [A.canon(S.num_norm(x)) for x in arr.data] == [A.canon(S.num_norm(x)) for x in walls]):
+                    calls.append((S.num_norm(val), runner.attrs["configs"].attrs["managers"]["threshold"], S.num_norm(v) + 2))
+                return v
+
+            ev.ext_calls[fname] = wrapped
 
     try:
         op = O.fold_op(proj, R.Cell(**kw), prepare=prepare)
@@ -135,8 +150,10 @@ def _flow_job(kw):
     org = atlas.attrs.get("origin")
     if not (isinstance(org, tuple) and len(org) == 2 and A.equal(A.to_rat(S.num_norm(org[0])), s("Q0", True) * s("Q0", True), tol=Fraction(0)) and org[1] == 3):
         problems.append(("atlas", f"origin is {org}, expected (Q0^2, nf0)"))
-    if len(calls) != 1:
-        problems.append(("single", f"nf_default evaluated {len(calls)} time(s) for one kinematic point (expected exactly once)"))
+    if not calls:
+        problems.append(("single", "the number of flavours of the point is never determined from (Q2, the runner's atlas): neither nf_default nor a count over the atlas walls is evaluated"))
+    elif len({str(v) for _, _, v in calls}) != 1:
+        problems.append(("single", f"the number of flavours is determined {len(calls)} times with different results {[v for _, _, v in calls]}"))
     for q2, at, v in calls:
         if not (isinstance(q2, A.Rat) and q2.canon() == "Q2"):
             problems.append(("single", f"nf_default called with scale {A.canon(q2)[:40]} instead of the point's Q2"))
@@ -225,7 +242,7 @@ def check_flow(rep, proj, tier):
                 rep.bad(f"C06.{rule}", "src/yadism/runner.py" if rule == "atlas" else "src/yadism/coefficient_functions/__init__.py", label, "; ".join(sorted(set(by[rule]))[:3]), key=rule)
             else:
                 rep.ok(f"C06.{rule}", "", label, {"atlas": "matching scales (m_q k_q)^2 in order c,b,t; origin (Q0^2, nf0)",
-                                                  "single": f"nf_default called once with (Q2, runner atlas) -> {nf}",
+                                                  "single": f"number of flavours determined from (Q2, runner atlas) -> {nf}",
                                                   "flow": "no threshold symbols in the operator; beta coefficients and every generated coefficient function at the same nf"}[rule])
         n_ok += 1
     for (obs, proc, nf), lst in sorted(sigs.items()):
@@ -235,6 +252,64 @@ def check_flow(rep, proj, tier):
                   f"ZM-VFNS operator changes with NfFF ({sorted(n for n, _ in lst)}): something other than nf_default's value is used", key="nfff-independence")
     rep.floor("flow cells", n_ok, 40)
     rep.floor("kernels whose nf was compared with nf_default", n_kernels, 300)
+
+
+def _boundary_job(kw):
+    """Concrete matching scales: the number of flavours of every generated coefficient function is 3 + #{(m k)^2 <= Q2}, in particular
+    a scale that equals Q2 counts (eko: digitize(Q2, walls), right=False)."""
+    from .. import model
+
+    proj = model.project()
+    kw = dict(kw)
+    expected = kw.pop("expected")
+    try:
+        op = O.fold_op(proj, R.Cell(**kw))
+    except O.FoldFailure as f:
+        return ("fold", f.outcome.status, f"{f.outcome.etype} {f.outcome.msg}"[:160])
+    seen = {}
+    for partons, coeff in getattr(op.ev, "kernel_log", []):
+        if isinstance(coeff, S.ObjVal) and coeff.cinfo is not None and "nf" in coeff.attrs:
+            fam = coeff.cinfo.fq.split("coefficient_functions.")[-1].split(".")[0]
+            if fam != "intrinsic":
+                seen.setdefault(S.num_norm(coeff.attrs["nf"]), coeff.cinfo.fq)
+    # beta coefficients of the scale-variation terms
+    betas = set()
+    for key, (vals, errs) in op.orders.items():
+        for row in vals:
+            for e in row:
+                if isinstance(e, A.Rat):
+                    for a in e.all_atoms():
+                        if a.startswith("beta0("):
+                            betas.add(a[6:-1])
+    return ("ok", {str(k): v for k, v in seen.items()}, sorted(betas), expected)
+
+
+def check_boundary(rep, proj, tier):
+    # mc = 3/2, mb = 9/2, mt = 100 with ratios (1, 2, 1): matching scales 9/4, 81, 10000
+    th = dict(mc=Fraction(3, 2), mb=Fraction(9, 2), mt=100, kcThr=1, kbThr=2, ktThr=1)
+    points = [(2, 3, "below the charm scale"), (Fraction(9, 4), 4, "exactly at the charm scale"), (3, 4, "between charm and bottom"),
+              (81, 5, "exactly at the bottom scale (m_b k_b)^2"), (Fraction(81, 4), 4, "at m_b^2 but below (m_b k_b)^2"), (10000, 6, "exactly at the top scale"),
+              (9999, 5, "just below the top scale")]
+    jobs = []
+    for (q2, nf, what), obs in itertools.product(points, ["F2_total", "F3_total"] if tier == "quick" else ["F2_total", "F3_total", "FL_total", "F2_light"]):
+        jobs.append(dict(obs=obs, process="NC", fns="ZM-VFNS", nfff=4, nf=None, pto=1, ren_sv=True, fact_sv=True, kin_q2=q2, theory_overrides=th, expected=(nf, what)))
+    outs = sweep.run_cells(_boundary_job, jobs)
+    n = 0
+    for kw, o in zip(jobs, outs):
+        nf, what = kw["expected"]
+        label = f"{kw['obs']}|ZM-VFNS|Q2={kw['kin_q2']} ({what})"
+        if o[0] == "fold":
+            rep.undecided("C06.boundary", "", label, f"not foldable ({o[1]}): {o[2]}")
+            continue
+        _, seen, betas, _exp = o
+        n += 1
+        wrong = {k: v for k, v in seen.items() if k != str(nf)}
+        wrong_b = [b for b in betas if b != str(nf)]
+        rep.check(bool(seen) and not wrong and not wrong_b, "C06.boundary", "src/yadism/coefficient_functions/__init__.py", label,
+                  f"every coefficient function and beta coefficient at nf = {nf}",
+                  (f"coefficient functions built with nf = {sorted(wrong)} (e.g. {next(iter(wrong.values()))}) " if wrong else "")
+                  + (f"beta0 at nf = {wrong_b} " if wrong_b else "") + ("no kernel generated " if not seen else "") + f"where the documented count 3 + #{{(m k)^2 <= Q2}} is {nf}", key=label)
+    rep.floor("threshold-boundary cells", n, 10)
 
 
 def check_eko(rep):
@@ -274,4 +349,5 @@ def run(rep, proj, tier):
     rep.assumptions = ["mc*kc < mb*kb < mt*kt (eko's default flow)"]
     check_fns(rep, proj)
     check_flow(rep, proj, tier)
+    check_boundary(rep, proj, tier)
     check_eko(rep)
